@@ -597,25 +597,27 @@ def c02i(ctx):
             ctx.check(bool(same), 'KMLServer._get_subtiles:box-of-same-address', 'the box and the address of a sub tile come from the same grid coordinate', fn, x)
 
 
-@rule('C02.j', floor=2)
+@rule('C02.j', floor=4)
 def c02j(ctx):
     """one address space per tile matrix set: a directory-based cache that is configured for several grids stores each grid in its
     own directory -- the cache directory gets a grid-specific component (grid name / SRS), or, where the directory is taken as
     configured, a cache with several grids is refused.  (Tile files are addressed by z/x/y only: two matrix sets in one directory
     answer each other's addresses.)"""
     L = 'mapproxy/config/loader.py:CacheConfiguration.'
-    for m in ('_file_cache', '_compact_cache'):
+    # backend builder -> the local that holds where the tiles of this (cache, grid) pair are stored
+    # (geopackage: one table per grid in a shared file, and the table is verified against the grid when it is opened -- not armed here)
+    for m, where in (('_file_cache', 'cache_dir'), ('_compact_cache', 'cache_dir'), ('_mbtiles_cache', 'mbfile_path'), ('_sqlite_cache', 'cache_dir')):
         fn = ctx.fn(L + m)
 
         fdefs = Defs(fn.node)
 
-        def ev(st, fdefs=fdefs):
+        def ev(st, fdefs=fdefs, where=where):
             # the new directory depends on the grid configuration (directly or through a local such as the SRS suffix)
-            if isinstance(st, ast.Assign) and any(isinstance(t, ast.Name) and t.id == 'cache_dir' for t in st.targets):
+            if isinstance(st, ast.Assign) and any(isinstance(t, ast.Name) and t.id == where for t in st.targets):
                 parts = st.value.args if isinstance(st.value, ast.Call) else [st.value]
-                # (the old value of cache_dir itself does not count: it would lead back to the other assignments)
+                # (the old value of the variable itself does not count: it would lead back to the other assignments)
                 if any(depends(a, lambda x: isinstance(x, ast.Name) and x.id == 'grid_conf', fdefs) for a in parts
-                       if not (isinstance(a, ast.Name) and a.id == 'cache_dir')):
+                       if not (isinstance(a, ast.Name) and a.id == where)):
                     return 'grid-specific'
             return None
         # the part of the function that decides the directory: up to the first statement that does not mention the configuration
